@@ -200,7 +200,9 @@ class Field:
 
     @utils.cached_property
     def mock_value(self) -> str:
-        visited_fields: Set["Field"] = set()
+        return self._mock_value(set())
+
+    def _mock_value(self, visited_fields: Set["Field"]) -> str:
         stack = [self]
         answer = "{}"
         while stack:
@@ -243,10 +245,15 @@ class Field:
         if self.map:
             # Maps are a special case because they're represented internally as
             # a list of a generated type with two fields: 'key' and 'value'.
-            answer = "{{{}: {}}}".format(
-                self.type.fields["key"].mock_value,
-                self.type.fields["value"].mock_value,
-            )
+            # Map value types that lead back to this map need to terminate eventually
+            if self in visited_fields:
+                answer = "{}"
+            else:
+                visited_fields.add(self)
+                answer = "{{{}: {}}}".format(
+                    self.type.fields["key"].mock_value,
+                    self.type.fields["value"]._mock_value(visited_fields),
+                )
         elif self.repeated:
             # If this is a repeated field, then the mock answer should
             # be a list.
